@@ -100,6 +100,26 @@ MM4_C(mmult_avx512_4x12, P_mm4, )
 #define P_mm4_8(i) (canon(c[i]) == SROW(DOT8, a0, a1, a2, b, i, L4(i)))
 MM4_C(mmult_avx512_4x12_8, P_mm4_8, && all_lt256(b, 48))
 
+/* the same with the output register aliasing state register a0 resp. a2 (result over the OLD contents) */
+#define OLQ(x) __CPROVER_old(x)
+#define SROW_O0(D, x0, x1, x2, M, i, r) ROWX(D, OLQ(x0[S4(i)]), OLQ(x0[S4(i) + 1]), OLQ(x0[S4(i) + 2]), OLQ(x0[S4(i) + 3]), x1[S4(i)], x1[S4(i) + 1], x1[S4(i) + 2], x1[S4(i) + 3], \
+                                          x2[S4(i)], x2[S4(i) + 1], x2[S4(i) + 2], x2[S4(i) + 3], (M) + 12 * (r))
+#define SROW_O2(D, x0, x1, x2, M, i, r) ROWX(D, x0[S4(i)], x0[S4(i) + 1], x0[S4(i) + 2], x0[S4(i) + 3], x1[S4(i)], x1[S4(i) + 1], x1[S4(i) + 2], x1[S4(i) + 3], \
+                                          OLQ(x2[S4(i)]), OLQ(x2[S4(i) + 1]), OLQ(x2[S4(i) + 2]), OLQ(x2[S4(i) + 3]), (M) + 12 * (r))
+#define MM4_CA(name, D, EXTRA) \
+  void k_##name##_ca0(u64 *ca0, const u64 *a1, const u64 *a2, const u64 *b) \
+  __CPROVER_requires(V4(ca0) && V4(a1) && V4(a2) && VN(b, 48) EXTRA) __CPROVER_assigns(__CPROVER_object_whole(ca0)) __CPROVER_ensures(ALL4(P_##name##_ca0)); \
+  void h_k_##name##_ca0(void) { u64 *c, *a1, *a2, *b; k_##name##_ca0(c, a1, a2, b); VF_SENTINEL; } \
+  void k_##name##_ca2(u64 *ca2, const u64 *a0, const u64 *a1, const u64 *b) \
+  __CPROVER_requires(V4(ca2) && V4(a0) && V4(a1) && VN(b, 48) EXTRA) __CPROVER_assigns(__CPROVER_object_whole(ca2)) __CPROVER_ensures(ALL4(P_##name##_ca2)); \
+  void h_k_##name##_ca2(void) { u64 *c, *a0, *a1, *b; k_##name##_ca2(c, a0, a1, b); VF_SENTINEL; }
+#define P_mmult_avx512_4x12_ca0(i) (canon(ca0[i]) == SROW_O0(DOT3, ca0, a1, a2, b, i, L4(i)))
+#define P_mmult_avx512_4x12_ca2(i) (canon(ca2[i]) == SROW_O2(DOT3, a0, a1, ca2, b, i, L4(i)))
+#define P_mmult_avx512_4x12_8_ca0(i) (canon(ca0[i]) == SROW_O0(DOT8, ca0, a1, a2, b, i, L4(i)))
+#define P_mmult_avx512_4x12_8_ca2(i) (canon(ca2[i]) == SROW_O2(DOT8, a0, a1, ca2, b, i, L4(i)))
+MM4_CA(mmult_avx512_4x12, DOT3, )
+MM4_CA(mmult_avx512_4x12_8, DOT8, && all_lt256(b, 48))
+
 /* ---------------- 12x12 product in place: new a_k[i] is row 4k + (i mod 4) over the OLD state of lane i */
 #define OL(x) __CPROVER_old(x)
 #define OLDSROW(D, M, i, r) ROWX(D, OL(a0[S4(i)]), OL(a0[S4(i) + 1]), OL(a0[S4(i) + 2]), OL(a0[S4(i) + 3]), OL(a1[S4(i)]), OL(a1[S4(i) + 1]), OL(a1[S4(i) + 2]), OL(a1[S4(i) + 3]), \
